@@ -358,7 +358,9 @@ func seq(n int) []int {
 var c16Lits = []string{"v1", "books", "shelves", "a", "Z", "b1", "x-y", "a.b", "a_b", "v1.2-rc", "k", "items"}
 var c16Verbs = []string{"read", "r", "x.y", "get-all"}
 
-const editChars = "{}=/*:.abZ19_-"
+// single-edit alphabet: the grammar's punctuation, identifier characters, and multi-byte runes that are
+// letters (é, ж), symbols (€, 😀) or neither (U+00A0, %, space) - 1 to 4 bytes wide
+var editChars = []rune("{}=/*:.abZ19_-éж€😀\u00a0% ")
 
 func genCase(t *rapid.T) Case {
 	var c Case
